@@ -144,6 +144,31 @@ struct StreamCase {
     wsh: bool,
     class: &'static str,
     n_msgs: usize,
+    /// longest declared piece (storage header included) when every declared length of the
+    /// stream is known to the generator (well-formed framing); None for hostile / arbitrary bytes
+    max_piece: Option<usize>,
+}
+
+/// reader construction: the default capacities, `new` (10 MiB buffer), or custom ones
+#[derive(Clone, Copy, Debug, PartialEq)]
+enum Caps {
+    Default,
+    New,
+    Custom(usize, usize),
+}
+
+impl Caps {
+    fn name(&self) -> &'static str {
+        match self {
+            Caps::Default => "with_capacity(65551,65551)",
+            Caps::New => "new",
+            Caps::Custom(b, m) if *m < 65551 => {
+                let _ = b;
+                "with_capacity(tight)"
+            }
+            Caps::Custom(..) => "with_capacity(large)",
+        }
+    }
 }
 
 fn gen_stream(ctx: &mut Ctx, light: bool) -> StreamCase {
@@ -154,15 +179,33 @@ fn gen_stream(ctx: &mut Ctx, light: bool) -> StreamCase {
         o.max_total = 60;
         o.typical_total = 40;
     }
-    let class_sel = ctx.rng.below(20);
+    let mut class_sel = ctx.rng.below(20);
     let nmax = if ctx.rng.chance(1, 8) { 30 } else { 6 };
-    let n = if light { ctx.rng.range(0, 3) } else { ctx.rng.range(0, nmax) } as usize;
+    let mut n = if light { ctx.rng.range(0, 3) } else { ctx.rng.range(0, nmax) } as usize;
+    // rare heavy classes: a message with one of the 16 largest declarable lengths (with a storage
+    // header it is exactly as long as, or a few bytes shorter than, the default message buffer),
+    // and a long history on one reader (> 4 MiB handed out by a single reader object)
+    let near_max = !light && ctx.rng.chance(1, 50);
+    let long_history = !light && !near_max && ctx.index % 3001 == 17;
+    if near_max || long_history {
+        class_sel = 0;
+        n = if long_history { ctx.rng.range(70, 110) as usize } else { ctx.rng.range(1, 4) as usize };
+    }
+    let near_max_at = if near_max { ctx.rng.usize_below(n) } else { usize::MAX };
     let mut bytes = vec![];
     let mut starts = vec![];
+    let mut max_piece = 0usize;
     for i in 0..n {
         starts.push(bytes.len());
         let mut oo = o.clone();
-        if !light && i == 0 && ctx.rng.chance(1, 40) {
+        if i == near_max_at || (long_history && ctx.rng.chance(9, 10)) {
+            oo = GenOpts::near_max(&mut ctx.rng);
+            oo.force_storage = Some(wsh);
+            if long_history && ctx.rng.chance(1, 2) {
+                oo.force_exact = false;
+                oo.typical_total = 65000;
+            }
+        } else if !light && i == 0 && ctx.rng.chance(1, 40) {
             // one large message, up to the 16-bit limit
             oo = GenOpts::normal();
             oo.force_storage = Some(wsh);
@@ -170,6 +213,7 @@ fn gen_stream(ctx: &mut Ctx, light: bool) -> StreamCase {
         }
         let m = gen_msg(&mut ctx.rng, &oo);
         let e = ref_encode(&m);
+        max_piece = max_piece.max(e.bytes.len());
         if class_sel == 10 && ctx.rng.chance(1, 2) {
             // payload-level damage that keeps the framing intact: mid-stream parse errors
             let mut b = e.bytes.clone();
@@ -192,8 +236,15 @@ fn gen_stream(ctx: &mut Ctx, light: bool) -> StreamCase {
         0..=6 => StreamCase {
             bytes,
             wsh,
-            class: "wellformed",
+            class: if long_history {
+                "long_history"
+            } else if near_max {
+                "near_max"
+            } else {
+                "wellformed"
+            },
             n_msgs: n,
+            max_piece: Some(max_piece),
         },
         7..=9 => {
             // truncated inside the last two messages (every offset is reached through the case index)
@@ -203,6 +254,7 @@ fn gen_stream(ctx: &mut Ctx, light: bool) -> StreamCase {
                     wsh,
                     class: "wellformed",
                     n_msgs: 0,
+                    max_piece: Some(0),
                 };
             }
             let from = starts[n.saturating_sub(2)];
@@ -214,6 +266,7 @@ fn gen_stream(ctx: &mut Ctx, light: bool) -> StreamCase {
                 wsh,
                 class: "truncated",
                 n_msgs: n,
+                max_piece: Some(max_piece),
             }
         }
         10 => StreamCase {
@@ -221,6 +274,7 @@ fn gen_stream(ctx: &mut Ctx, light: bool) -> StreamCase {
             wsh,
             class: "payload_damaged",
             n_msgs: n,
+            max_piece: Some(max_piece),
         },
         11..=14 => {
             // hostile length fields
@@ -256,6 +310,7 @@ fn gen_stream(ctx: &mut Ctx, light: bool) -> StreamCase {
                 wsh,
                 class: "hostile_length",
                 n_msgs: n,
+                max_piece: None,
             }
         }
         _ => {
@@ -274,17 +329,18 @@ fn gen_stream(ctx: &mut Ctx, light: bool) -> StreamCase {
                 wsh,
                 class: "arbitrary",
                 n_msgs: 0,
+                max_piece: None,
             }
         }
     }
 }
 
-fn run_blocking(bytes: &[u8], wsh: bool, script: Script, filter: Option<&ProcessedDltFilterConfig>, max_calls: usize, big_buffer: bool) -> (Vec<Obs>, crate::iosched::ReadLog) {
+fn run_blocking(bytes: &[u8], wsh: bool, script: Script, filter: Option<&ProcessedDltFilterConfig>, max_calls: usize, caps: Caps) -> (Vec<Obs>, crate::iosched::ReadLog) {
     let (src, handle) = SharedSource::new(bytes.to_vec(), script);
-    let mut reader = if big_buffer {
-        DltMessageReader::new(src, wsh)
-    } else {
-        DltMessageReader::with_capacity(65551, 65551, src, wsh)
+    let mut reader = match caps {
+        Caps::New => DltMessageReader::new(src, wsh),
+        Caps::Default => DltMessageReader::with_capacity(65551, 65551, src, wsh),
+        Caps::Custom(b, m) => DltMessageReader::with_capacity(b, m, src, wsh),
     };
     let mut out = vec![];
     for _ in 0..max_calls {
@@ -309,9 +365,13 @@ fn run_blocking(bytes: &[u8], wsh: bool, script: Script, filter: Option<&Process
     (out, log)
 }
 
-fn run_async(bytes: &[u8], wsh: bool, script: Script, filter: Option<&ProcessedDltFilterConfig>, max_calls: usize, stats: &mut PollStats) -> Result<(Vec<Obs>, crate::iosched::ReadLog), &'static str> {
+fn run_async(bytes: &[u8], wsh: bool, script: Script, filter: Option<&ProcessedDltFilterConfig>, max_calls: usize, stats: &mut PollStats, caps: Caps) -> Result<(Vec<Obs>, crate::iosched::ReadLog), &'static str> {
     let (src, handle) = SharedSource::new(bytes.to_vec(), script);
-    let mut reader = DltStreamReader::with_capacity(65551, 65551, src, wsh);
+    let mut reader = match caps {
+        Caps::New => DltStreamReader::new(src, wsh),
+        Caps::Default => DltStreamReader::with_capacity(65551, 65551, src, wsh),
+        Caps::Custom(b, m) => DltStreamReader::with_capacity(b, m, src, wsh),
+    };
     let mut out = vec![];
     let max_polls = 40 * (bytes.len() as u64 + 64);
     for _ in 0..max_calls {
@@ -378,11 +438,54 @@ impl Monitor for M {
         // schedule: the family rotates with the case index, its systematic parameter too
         let family = (ctx.index % FAMILIES.len() as u64) as usize;
         let sys = ctx.index / FAMILIES.len() as u64;
-        let script = gen_script(&mut ctx.rng, family, sc.bytes.len(), sys);
+        let script = if sc.class == "long_history" {
+            // megabytes of stream: large fragments with occasional faults keep the number of reads sane
+            let mut steps = vec![];
+            for _ in 0..ctx.rng.range(0, 400) {
+                if ctx.rng.chance(1, 5) {
+                    steps.push(crate::iosched::Step::Fault);
+                } else {
+                    steps.push(crate::iosched::Step::Give(ctx.rng.range(1, 200_000) as usize));
+                }
+            }
+            Script {
+                steps,
+                default: *ctx.rng.pick(&[usize::MAX, 65536, 100_000, 8192]),
+                family: "long_history_big_fragments",
+                max_consecutive: 8,
+            }
+        } else {
+            gen_script(&mut ctx.rng, family, sc.bytes.len(), sys)
+        };
         let script_hash = script.hash();
         self.schedules.insert(script_hash);
         let fam = script.family;
-        let big_buffer = !light && !self.is_async && ctx.index % 64 == 13;
+        // reader construction: mostly (65551, 65551); `new` (10 MiB) for a fraction and for half of the
+        // near-max / long-history streams; where every declared length is known, also tight
+        // capacities (message buffer = longest piece + 0..3, read buffer only a little larger, so
+        // the stream is many times the capacity) and larger-than-default ones
+        let caps = if light {
+            Caps::Default
+        } else if sc.class == "near_max" || sc.class == "long_history" {
+            if ctx.rng.chance(1, 2) {
+                Caps::New
+            } else {
+                Caps::Default
+            }
+        } else if ctx.index % 64 == 13 {
+            Caps::New
+        } else if let (Some(mp), true) = (sc.max_piece, ctx.rng.chance(1, 6)) {
+            let s = if sc.wsh { 16 } else { 0 };
+            let m = mp.max(s + 4) + ctx.rng.usize_below(4);
+            if ctx.rng.chance(2, 3) {
+                Caps::Custom(m + ctx.rng.usize_below(64), m)
+            } else {
+                Caps::Custom(65551 + ctx.rng.usize_below(200_000), 65551)
+            }
+        } else {
+            Caps::Default
+        };
+        let big_buffer = caps == Caps::New;
         let exp = expected(&sc.bytes, sc.wsh, filter);
         if matches!(exp.last(), Some(Exp::RefPanic)) {
             ctx.obs("stream.slice_parser_panicked_in_reference(C03)");
@@ -400,11 +503,14 @@ impl Monitor for M {
                 .set("schedule_family", script.family)
                 .set("schedule_head", format!("{:?}", script.steps.iter().take(12).collect::<Vec<_>>()))
                 .set("schedule_default_fragment", if script.default == usize::MAX { -1i64 } else { script.default as i64 })
+                .set("reader", format!("{:?}", caps))
         };
         let script_for_detail = script.clone();
         if !self.is_async {
             // ------------------------------------------------------------ C07
-            let (obs, log) = run_blocking(&sc.bytes, sc.wsh, script, filter, max_calls, big_buffer);
+            let (obs, log) = run_blocking(&sc.bytes, sc.wsh, script, filter, max_calls, caps);
+            ctx.obs_dyn(format!("reader.{}", caps.name()));
+            ctx.obs_n("source.max_consecutive_faults_bucket_ge_64", (log.max_consecutive_faults >= 64) as u64);
             ctx.obs_n("source.read_calls", log.calls);
             ctx.obs_n("source.faults_injected", log.faults);
             ctx.obs_n("source.short_reads", log.short_reads);
@@ -527,11 +633,21 @@ impl Monitor for M {
             ctx.sample(|| detail_base(&sc, &script_for_detail).set("expected_history", crate::json::trunc(&exps, 300)).set("reads", log.calls).set("faults", log.faults));
         } else {
             // ------------------------------------------------------------ C08
-            let (base, _) = run_blocking(&sc.bytes, sc.wsh, Script::whole(), filter, max_calls, false);
+            let (base, _) = run_blocking(&sc.bytes, sc.wsh, Script::whole(), filter, max_calls, Caps::Default);
             let mut stats = PollStats::default();
-            let res = run_async(&sc.bytes, sc.wsh, script, filter, max_calls, &mut stats);
+            let res = run_async(&sc.bytes, sc.wsh, script, filter, max_calls, &mut stats, caps);
+            ctx.obs_dyn(format!("reader.{}", caps.name()));
             let (obs, log) = match res {
                 Ok(x) => x,
+                Err("pending without wake") => {
+                    // the scripted source wakes the task before every Pending it returns, so a Pending
+                    // that reaches the executor without a wake-up was produced by the reader itself:
+                    // under a real executor the task would never be polled again
+                    ctx.violation("async.pending_without_wakeup", sc.class, || {
+                        detail_base(&sc, &script_for_detail).set("polls", stats.polls).set("what", "read_message returned Poll::Pending although no wake-up had been arranged: the reader would hang where the blocking reader delivers")
+                    });
+                    return;
+                }
                 Err(why) => {
                     ctx.inconclusive(format!("poll loop: {}", why));
                     return;
